@@ -96,7 +96,12 @@ func (s *Store) deleteAndOptionalCloseChild(child string, closeChannel bool) err
 			delete(children, child)
 		}
 
-		s.ChildrenByParent[parent] = children
+		if len(children) == 0 {
+			// the last child has gone: do not keep an empty map per past booking for ever
+			delete(s.ChildrenByParent, parent)
+		} else {
+			s.ChildrenByParent[parent] = children
+		}
 
 		delete(s.ParentByChild, child)
 	}
